@@ -34,7 +34,7 @@ from asyncio import (
     run_coroutine_threadsafe as run_coro_ts,
 )
 from itertools import islice
-from threading import Event, Lock
+from threading import Event, Lock, RLock
 from functools import partial, wraps
 from concurrent.futures import ThreadPoolExecutor
 from weakref import WeakKeyDictionary as WeakKeyDict, finalize
@@ -381,8 +381,11 @@ def threadsafe_async_cache(
 
     # 1 loop + event per input key currently caching
     events: Dict[Tuple[Any, ...], Tuple[aio.AbstractEventLoop, aio.Event]] = {}
-    # Ensure thread safety while creating events
-    event_making_lock = Lock()
+    # Ensure thread safety while creating events. Re-entrant as the
+    # cleanup of an abandoned call (pending on a loop that got closed)
+    # happens whenever the garbage collector gets to it, which may be
+    # in a thread that is inside one of the locked blocks right now.
+    event_making_lock = RLock()
 
     @wraps(_func)
     async def _wrapper(*args: Any, **kwargs: Any) -> Any:
